@@ -25,7 +25,7 @@ theorem unifySF_mono (fuel fuel' : Nat) (S : Subst) (n : Nat) (a b : Ty) (r : Ex
     rw [unify_mono fuel fuel' n _ _ _ hle h₁ (by intro hh; cases hh)]
     exact h
 
-/-- One step of the monotonicity proof: case-split on the sub-result `t` at the small fuel; an
+/- One step of the monotonicity proof: case-split on the sub-result `t` at the small fuel; an
 error (which cannot be `fuel`, or the whole answer `r` would be) closes the goal, a success is
 transported to the large fuel with `m` and the `match` is reduced on both sides.
 Uses the hypotheses `h` (the run at the small fuel) and `hr` (`r ≠ .error .fuel`) by name. -/
@@ -105,20 +105,16 @@ theorem inferF_mono (fuel fuel' : Nat) (hle : fuel ≤ fuel') : ∀ (e : Expr) (
     fuel_step h₁ : inferF false fuel Γ e S n with ⟨τ, S₁, n₁⟩ using ih _ _ _ _
     cases ha : asRec (τ.subst S₁) with
     | some row =>
-      rw [ha] at h ⊢
       simp only at h ⊢
       cases hl : lookupField l (rowFields row) with
       | some τl =>
-        rw [hl] at h ⊢
         exact h
       | none =>
-        rw [hl] at h ⊢
         simp only at h ⊢
         fuel_step h₂ : unifySF false fuel S₁ (n₁ + 2) (tRec (.ext l (.var n₁) (.var (n₁ + 1)))) τ
           with ⟨S₂, n₂⟩ using U _ _ _ _ _
         exact h
     | none =>
-      rw [ha] at h ⊢
       simp only at h ⊢
       by_cases hv : isVar (τ.subst S₁) = true
       · rw [if_pos hv] at h ⊢
